@@ -113,3 +113,28 @@ Proof.
   rewrite app_nil_r, forallb_forall. unfold incl.
   split; intros [H1 H2]; split; auto; intros a Ha; apply z_mem_In; auto.
 Qed.
+
+(* ---------------------------------------------------------------- propagation *)
+Theorem propagated_spec tables v :
+  In v (propagated tables) <-> (exists t, In t tables /\ In v t) /\ count_tables v tables = 1.
+Proof.
+  unfold propagated. rewrite filter_In, in_concat, Nat.eqb_eq. tauto.
+Qed.
+
+(* with one scope instance the propagated table is the table itself (as a set) *)
+Theorem propagated_single t v : NoDup t -> (In v (propagated [t]) <-> In v t).
+Proof.
+  intro Hnd. rewrite propagated_spec. unfold count_tables. cbn [filter]. split.
+  - intros [[t' [[<-|[]] Hv]] _]. exact Hv.
+  - intro Hv. split; [exists t; split; [now left | exact Hv]|].
+    assert (E : ct_mem v t = true) by now apply ct_mem_In. now rewrite E.
+Qed.
+
+Theorem ancestor_keyref_spec tables ts :
+  ancestor_keyref_errors tables ts = [] <->
+  forall v, In v (qualified ts) -> (exists t, In t tables /\ In v t) /\ count_tables v tables = 1.
+Proof.
+  unfold ancestor_keyref_errors. rewrite keyref_spec. split; intros H v Hv; specialize (H v Hv).
+  - now apply propagated_spec.
+  - now apply propagated_spec.
+Qed.
